@@ -86,6 +86,16 @@ for it in range(R.n(4, 20)):
     h = stg.voltage.raw_utils.read_header(p3 + '.0000.raw')
     R.check('record/second-recording-default-header-starts-afresh', dict(c, array=array), int(h['PKTIDX']) == 0 and int(h['PKTSTART']) == 0, {k: h[k] for k in ('PKTIDX', 'PKTSTART', 'PKTSTOP')})
 
+# every construction route threads the seed: two frames from the same seed draw the same noise
+for route in ('from_backend_params', 'from_data'):
+    def mk(sd):
+        if route == 'from_backend_params':
+            return stg.Frame.from_backend_params(fchans=32, obs_length=20, sample_rate=3e9, num_branches=1024, fftlength=1048576, int_factor=51, fch1=6e9, ascending=True, seed=sd)
+        return stg.Frame.from_data(2.79, 18.25, 6e9, True, np.zeros((8, 32)), seed=sd)
+    a_, b_, c_ = mk(R.seed + 3), mk(R.seed + 3), mk(R.seed + 4)
+    na, nb_, nc_ = a_.add_noise(10), b_.add_noise(10), c_.add_noise(10)
+    R.check(f'frame/{route}/same-seed-same-noise-other-seed-other-noise', dict(route=route), np.array_equal(na, nb_) and not np.array_equal(na, nc_), None)
+
 # the caller's header dictionary, reused for a second recording (with and without the template): not modified, block numbering restarts
 for tmpl in (False, True):
     for array in (False, True):
